@@ -49,6 +49,7 @@ fn lines() {
             "bnd" => bound::run_bnd(&toks[1..]),
             "cls" => bound::run_cls(&toks[1..]),
             "upd" => updater::run(&toks[1..]),
+            "updt" => updater::run_timed(&toks[1..]),
             "shm" => engine::run(&toks[1..]),
             "stall" => engine::run_stall(&toks[1..]),
             "seg" => segfile::run_seg(&toks[1..]),
